@@ -104,11 +104,11 @@ func (c18) Gen(rng *rand.Rand, tier string, idx int) Case {
 		c.Stat = append(c.Stat, "exotic-row-values", "exotic-"+kind)
 		return c
 	}
-	if idx%13 == 8 && idx/13 < 6 {
+	if idx%13 == 8 && idx/13 < 8 {
 		// a custom function that panics for one ordinary value (and is handed the unusual ones too), in a SELECT item, in
 		// WHERE and inside an aggregate argument of a windowed query
-		kind := []string{"fnsel", "fnwhere", "fnagg"}[(idx/13)%3]
-		for _, p := range [][]int{{18, 0, 8}, {18, 12, 3}}[(idx/13)/3] {
+		kind := []string{"fnsel", "fnwhere", "fnagg", "fncep"}[(idx/13)%4]
+		for _, p := range [][]int{{18, 0, 8}, {18, 12, 3}}[(idx/13)/4] {
 			c.Ops = append(c.Ops, []string{"exotic", kind, strconv.Itoa(p)})
 		}
 		c.Stat = append(c.Stat, "exotic-row-values", "exotic-"+kind, "custom-function-panics")
@@ -631,6 +631,7 @@ var c18ExoticSQL = map[string]string{
 	"fnsel":   "SELECT id, zzboom(w) AS z FROM stream",
 	"fnwhere": "SELECT id FROM stream WHERE zzboom(w) >= 0",
 	"fnagg":   "SELECT COUNT(*) AS c, SUM(zzboom(w)) AS s, MAX(id) AS id FROM stream GROUP BY CountingWindow(1)",
+	"fncep":   "SELECT * FROM stream MATCH_RECOGNIZE (ORDER BY ts MEASURES LAST(id) AS id PATTERN (A+ B) DEFINE A AS zzboom(w) >= 0 AND v > 0, B AS v <= 0)",
 }
 
 func init() {
@@ -728,7 +729,7 @@ func c18exotic(kind string, pick int) [][]string {
 	emit(row(103, "a", 0, 0.5))
 	want := map[string][]string{"direct": {"101", "102", "103"}, "join": {"101", "102", "103"}, "orderby": {"101", "102", "103"},
 		"batch": {"103"}, "cep": {"103"}, "groupfn": {"101", "102", "103"},
-		"fnsel": {"101", "102", "103"}, "fnwhere": {"101", "102", "103"}, "fnagg": {"101", "102", "103"}}[kind]
+		"fnsel": {"101", "102", "103"}, "fnwhere": {"101", "102", "103"}, "fnagg": {"101", "102", "103"}, "fncep": {"103"}}[kind]
 	deadline := time.Now().Add(3 * time.Second)
 	missing := func() bool {
 		for _, id := range want {
